@@ -1,7 +1,7 @@
 ---- MODULE MC_DependsPath ----
 EXTENDS DependsPath
-DShallow == {"ax", "axay", "aparam", "axcx"}
-DDeep == {"abx", "abxaby", "abxcx"}
+DShallow == {"ax", "axay", "aparam", "axcx", "axcy"}
+DDeep == {"abx", "abxaby", "abxcx", "azabx"}
 DAll == DShallow \cup DDeep
 L2 == {1, 2}
 L3 == {1, 2, 3}
